@@ -249,8 +249,9 @@ def run(spec, tier, seed, repo_root):
     )
     ev = dict(property_id=prop, tier=tier, seed=int(seed), level="other", coverage=cov,
               assumptions=spec["assumptions"], wall_s=round(time.time() - t0, 2), violations=len(violations))
-    os.makedirs(os.path.join(VERIF, "evidence"), exist_ok=True)
-    with open(os.path.join(VERIF, "evidence", f"{prop}.json"), "w") as f:
+    _evdir = os.environ.get("PYVC_EVIDENCE_DIR", os.path.join(VERIF, "evidence"))
+    os.makedirs(_evdir, exist_ok=True)
+    with open(os.path.join(_evdir, f"{prop}.json"), "w") as f:
         json.dump(ev, f, indent=1, default=str)
 
     # ---- verdict
